@@ -21,7 +21,6 @@ foreign_keys), so every generated history is executable.
 """
 from __future__ import annotations
 
-import os
 import warnings
 from collections import OrderedDict
 
